@@ -4,10 +4,24 @@ import anytree
 from anytree import NodeMixin, LightNodeMixin, Node, AnyNode, SymlinkNode
 
 
-class HookAbort(Exception):
-    def __init__(self, i, kind, label):
-        Exception.__init__(self, "hook %d %s %s" % (i, kind, label))
-        self.tag = "HookAbort:%d:%s:%d" % (i, kind, label)
+class AbortMarker(object):
+    """what a vetoing hook raises: recognised by this marker; the exception's own class varies (a hook may state its
+    rule with `assert`, raise ValueError, or one of the library's own exception classes - none may be treated specially)"""
+    tag = None
+
+
+def _abort_class(base):
+    class _Abort(AbortMarker, base):
+        def __init__(self, i, kind, label):
+            base.__init__(self, "hook %d %s %s" % (i, kind, label))
+            self.tag = "HookAbort:%d:%s:%d" % (i, kind, label)
+    _Abort.__name__ = "HookAbort_" + base.__name__
+    return _Abort
+
+
+HookAbort = _abort_class(Exception)
+ABORT_CLASSES = [HookAbort, _abort_class(AssertionError), _abort_class(ValueError), _abort_class(anytree.TreeError),
+                 _abort_class(anytree.LoopError), _abort_class(KeyError), _abort_class(TypeError), _abort_class(AttributeError)]
 
 
 class Ctl(object):
@@ -17,6 +31,8 @@ class Ctl(object):
         self.counter = 0
         self.rule = None
         self.log = []
+        self.salt = 0        # varies the class of the exception a vetoing hook raises (set per operation)
+        self.nested = False  # inside a structural call made by a hook
 
     def register(self, node):
         self.ids[id(node)] = len(self.nodes)
@@ -47,7 +63,17 @@ class Ctl(object):
         self.counter += 1
         r = self.rule
         if i in r.get("at", ()) or (kind in r.get("kinds", ()) and (r.get("nodes") is None or lab in r["nodes"])):
-            raise HookAbort(i, kind, lab)
+            raise ABORT_CLASSES[(i + self.salt) % len(ABORT_CLASSES)](i, kind, lab)
+        re = r.get("reenter")
+        if re and re["at"] == i and not self.nested:
+            # a re-entrant hook: it detaches ANOTHER node (never the one the hook belongs to) while the call is in progress
+            target = self.nodes[re["y"]]
+            if target is not node and target.parent is not None:
+                self.nested = True
+                try:
+                    target.parent = None
+                finally:
+                    self.nested = False
 
 
 def make_classes(ctl):
@@ -193,7 +219,7 @@ def convert(val, how):
 
 
 def exc_tag(e):
-    if isinstance(e, HookAbort):
+    if isinstance(e, AbortMarker):
         return e.tag
     return type(e).__name__
 
@@ -247,6 +273,7 @@ def _impl(case):
     for op in case["ops"]:
         opkey[0] = len(repr(sorted((k, repr(v)) for k, v in op.items() if k != "faults")))
         ctl.begin(op.get("faults"))
+        ctl.salt = opkey[0]
         res = "ok"
         try:
             k = op["op"]
